@@ -15,6 +15,9 @@ pub struct C06 {
     pub rep: Report,
     pub case_seed: u64,
     r: Rng,
+    /// (case, height) of a block in which an accepted batch raised the DOSC speed, and whether another accepted batch
+    /// followed it in that block
+    raised_in: Option<(u64, u64, bool)>,
 }
 
 /// The statement's own criterion, evaluated through the public API: the header obtained by applying
@@ -113,7 +116,27 @@ impl C06 {
 }
 
 impl Monitor for C06 {
+    fn on_batch(&mut self, _w: &World, ev: &BatchEvent) {
+        if !matches!(ev.result, Ok(Ok(()))) || ev.txs.is_empty() {
+            return;
+        }
+        let here = (self.case_seed, ev.pre.snap.height.0);
+        if let Some((c, h, _)) = self.raised_in {
+            if (c, h) == here {
+                self.raised_in = Some((c, h, true));
+            }
+        }
+        if ev.post.snap.dosc_speed > ev.pre.snap.dosc_speed {
+            self.raised_in = Some((here.0, here.1, false));
+        }
+    }
+
     fn on_seal(&mut self, w: &World, ev: &SealEvent) {
+        if let Some((c, h, true)) = self.raised_in {
+            if (c, h) == (self.case_seed, ev.height) && ev.panic.is_none() {
+                self.rep.count("honest blocks in which a batch after the speed-raising mint followed");
+            }
+        }
         let (parent, child) = match (&w.prev_tip, &w.tip) {
             (Some(p), Some(c)) if ev.panic.is_none() => (p.clone(), c.clone()),
             _ => return,
@@ -230,11 +253,12 @@ pub fn run(p: &Params) -> Report {
     let total = p.n(200, 6000);
     let mine = p.share(total);
     let mut rng = Rng::new(p.shard_seed() ^ 0xC06);
-    let mut mon = C06 { rep: Report::new("C06"), case_seed: 0, r: Rng::new(p.shard_seed() ^ 6) };
+    let mut mon = C06 { rep: Report::new("C06"), case_seed: 0, r: Rng::new(p.shard_seed() ^ 6), raised_in: None };
     mon.rep.rule = "cases = (parent state, block) pairs: every block of random histories on all network classes (incl. TIP-908) applied to its parent as produced (to_block, HashSet rebuilt) and under one mutation each of: the 11 header fields, a transaction removed / added / altered (data, output value, signature field), the proposer action added / dropped / changed (delta, destination), and the block applied to the wrong parent. Oracle: the statement's own criterion evaluated through the public API - recompute the header from parent.next_unsealed + apply_tx_batch(txs) + seal(action); accept iff the batch is valid and that header equals the declared one; on acceptance the returned state has the declared header. Non-trivial = every mutated case and honest blocks with transactions; distinct by (header hash, mutation)".into();
     if p.only_case.is_none() {
         mon.rep.require("honest blocks accepted", p.n(800, 16000));
         mon.rep.require("rejected: header-field", p.n(8000, 160000));
+        mon.rep.require("honest blocks in which a batch after the speed-raising mint followed", p.n(5, 100));
     }
     for case in 0..mine {
         let case_seed = rng.next();
@@ -247,6 +271,12 @@ pub fn run(p: &Params) -> Report {
         let mut w = if case % 4 == 0 { World::fabricated(case_seed, NetID::Custom08, 2 + case % 7, *mon.r.pick(&FEE_MULTS[..5]), 1 << 30) } else { World::random(case_seed) };
         w.profile.hostile = 4;
         w.profile.dependent_permille = 450;
+        if case % 4 == 2 {
+            // blocks whose DOSC speed is raised by a mint in one of several batches (the producer applies batch after
+            // batch, the validator the whole block at once)
+            w.profile.fast_mint_permille = 600;
+            w.profile.doscmint = 30;
+        }
         let blocks = 5 + (case % 8) as usize;
         run_history(&mut w, blocks, &mut [&mut mon]);
     }
